@@ -39,6 +39,12 @@ class Profile:
     drivers: tuple = ("sync",)
     sigs: tuple = ("ed", "named", "kwargs", "bare")
     guard_ret_any: bool = True       # guards return arbitrary truthy/falsy values, not only bools
+    p_any: float = 0.2               # per scenario: 1-2 transitions declared with from_.any()
+    p_wrap: float = 0.12             # per callback: wrapped by a functools.wraps decorator (half of them with __signature__)
+    p_alias: float = 0.2             # per scenario: a name attached to 2-3 action groups of one transition
+    p_model_shape: float = 0.2       # falsy model object
+    p_listener_kind: float = 0.3     # listeners that compare equal / generic hooks objects
+    p_write: float = 0.0             # per op: somebody assigns the model field directly
 
 
 def gen_machine(rng: random.Random, P: Profile, scn: Scn):
@@ -80,6 +86,15 @@ def gen_machine(rng: random.Random, P: Profile, scn: Scn):
     if not trans:
         trans.append(Tr(init, init, rand_events()))
     rng.shuffle(trans)
+    if rng.random() < P.p_any:
+        for _ in range(rng.choice([1, 1, 2])):
+            e = rng.choice(evs + [rng.choice(evs)] + [x for x in range(1, len(EVENTS)) if x not in evs][:1])
+            if any(t.any and t.events == [e] for t in trans):
+                continue
+            if e not in evs:
+                evs.append(e)
+            pos = rng.randint(0, len(trans))
+            trans.insert(pos, Tr(0, rng.randrange(n), [e], any=True))
     scn.trans = trans
     return evs
 
@@ -94,6 +109,8 @@ def gen_callbacks(rng: random.Random, P: Profile, scn: Scn, evs):
         coro = rng.random() < P.p_coro
         c = Cb(cid[0], group, style, provider, name or f"cb{cid[0]}", at, coro=coro, sig=sig, named=named,
                yields=rng.randint(0, P.max_yields) if coro else 0)
+        if rng.random() < P.p_wrap:
+            c.wrap = rng.choice(["wraps", "sig"])
         scn.cbs.append(c)
         return c
 
@@ -129,8 +146,23 @@ def gen_callbacks(rng: random.Random, P: Profile, scn: Scn, evs):
             provs = rng.sample(list(P.providers), rng.choice([1, 1, 1, 2]))
             for p in provs:
                 new(g, "conv", p, nm, at)
+    # one name attached to several action groups of one transition (one function, several specs)
+    if rng.random() < P.p_alias:
+        cands = [c for c in scn.cbs if c.style == "name" and c.at[0] == "t" and c.group in ("before", "on", "after")
+                 and sum(1 for x in scn.cbs if x.name == c.name) == 1]
+        if cands:
+            c = rng.choice(cands)
+            others = [g for g in ("before", "on", "after") if g != c.group]
+            for g in rng.sample(others, rng.choice([1, 1, 2])):
+                cid[0] += 1
+                scn.cbs.append(Cb(cid[0], g, "name", c.provider, c.name, c.at, coro=c.coro, sig=c.sig, named=c.named,
+                                  yields=c.yields, wrap=c.wrap, alias_of=c.id))
     used = sorted({c.provider for c in scn.cbs if c.provider.startswith("L")})
     scn.listeners_ctor = used
+    if rng.random() < P.p_model_shape:
+        scn.model_shape = rng.choice(["len0", "boolF"])
+    if used and rng.random() < P.p_listener_kind:
+        scn.listener_kind = rng.choice(["eq", "hooks"])
 
 
 def sibling_map(scn: Scn):
@@ -213,7 +245,9 @@ def gen_ops(rng: random.Random, P: Profile, scn: Scn, evs):
     ops = [("construct",)]
     for _ in range(n):
         r = rng.random()
-        if r < P.p_activate:
+        if rng.random() < P.p_write:
+            ops.append(("write", rng.choice([st.val for st in scn.states])))
+        elif r < P.p_activate:
             ops.append(("activate",))
         elif r < P.p_activate + P.p_reconstruct:
             ops.append(("reconstruct",))
